@@ -440,7 +440,8 @@ impl MemoryMap {
             MappingMode::Mutable => libc::PROT_READ | libc::PROT_WRITE,
         };
         let ptr = unsafe { libc::mmap(ptr::null_mut(), len, prot, libc::MAP_SHARED, file.as_raw_fd(), 0) };
-        if ptr.is_null() {
+        // `mmap` reports failure with `MAP_FAILED`, not with a null pointer.
+        if ptr == libc::MAP_FAILED || ptr.is_null() {
             return Err(Error::new(ErrorKind::Other, "Memory mapping failed"));
         }
 
